@@ -55,6 +55,26 @@ func c18Do(w *World, cmd string, n int) {
 		w.Deploy(deployArgs("s2", []string{fmt.Sprintf("x%d:80", n)}, []string{"b.example.com"}, nil))
 	case "deploy-conflict":
 		w.Deploy(deployArgs("s3", []string{fmt.Sprintf("y%d:80", n)}, []string{host}, nil))
+	case "deploy-sick3", "rollout-deploy-sick3":
+		// three targets that never become healthy: their waiters all give up at the same instant
+		var ts []string
+		for i := 0; i < 3; i++ {
+			tn := fmt.Sprintf("sick%d-%d:80", n, i)
+			if w.Net.Target(tn) == nil {
+				w.AddTarget(tn, p500())
+			}
+			ts = append(ts, tn)
+		}
+		if cmd == "deploy-sick3" {
+			a := deployArgs("s1", ts, []string{host}, nil)
+			a.DeployTimeout = 1300 * time.Millisecond
+			w.Deploy(a)
+		} else {
+			w.runCmd("rollout-deploy", fmt.Sprint(ts), func() error {
+				var r bool
+				return w.Cmd.RolloutDeploy(RolloutDeployArgs{Service: "s1", TargetURLs: ts, DeployTimeout: 1300 * time.Millisecond, DrainTimeout: vD}, &r)
+			})
+		}
 	case "none":
 	}
 }
@@ -285,6 +305,9 @@ func c18Configs(tier string) []c18cfg {
 				}
 			}
 		}
+	}
+	for _, a := range []string{"deploy-sick3", "rollout-deploy-sick3"} {
+		cfgs = append(cfgs, c18cfg{a, "none", "one-plain", "running"}, c18cfg{a, "list", "one-plain", "running"})
 	}
 	// one command and one request: small enough for a deeper bound in the quick tier
 	for _, a := range c18Cmds {
